@@ -181,19 +181,19 @@ theorem relocate_lower {d D k : Nat} {bg : Option α} {g0 : Nat → Nat → Opti
 /-! ### The loop writing the noise blocks -/
 
 /-- The second loop of `augmentWithNoise` over the first `n` components. -/
-def noiseLoop [Zero α] (d D a : Nat) (q : Nat → Nat → α) (n : Nat) (g : Nat → Nat → Option α) :
+def noiseLoop [Zero α] (d D a : Nat) (q : Nat → Nat → Option α) (n : Nat) (g : Nat → Nat → Option α) :
     Nat → Nat → Option α :=
   forUp n (fun i g =>
     putBlock 0 (i * D + d) d a (fun _ _ => some 0)
-      (putBlock d (i * D + d) a a (fun r c => some (q r c)) g)) g
+      (putBlock d (i * D + d) a a q g)) g
 
-theorem noiseLoop_succ [Zero α] (d D a : Nat) (q : Nat → Nat → α) (n : Nat) (g : Nat → Nat → Option α) :
+theorem noiseLoop_succ [Zero α] (d D a : Nat) (q : Nat → Nat → Option α) (n : Nat) (g : Nat → Nat → Option α) :
     noiseLoop d D a q (n + 1) g =
       putBlock 0 (n * D + d) d a (fun _ _ => some 0)
-        (putBlock d (n * D + d) a a (fun r c => some (q r c)) (noiseLoop d D a q n g)) := rfl
+        (putBlock d (n * D + d) a a q (noiseLoop d D a q n g)) := rfl
 
 /-- Columns outside every noise column range are not written. -/
-theorem noiseLoop_outside [Zero α] (d D a : Nat) (q : Nat → Nat → α) (n : Nat) (g : Nat → Nat → Option α)
+theorem noiseLoop_outside [Zero α] (d D a : Nat) (q : Nat → Nat → Option α) (n : Nat) (g : Nat → Nat → Option α)
     (r c : Nat) (h : ∀ i, i < n → ¬ (i * D + d ≤ c ∧ c < i * D + d + a)) :
     noiseLoop d D a q n g r c = g r c := by
   induction n with
@@ -206,11 +206,11 @@ theorem noiseLoop_outside [Zero α] (d D a : Nat) (q : Nat → Nat → α) (n : 
     exact ih (fun i hi => h i (Nat.lt_succ_of_lt hi))
 
 /-- Columns `d .. d + a` of component `i`: zero above, the noise covariance below. -/
-theorem noiseLoop_inside [Zero α] (d a : Nat) (q : Nat → Nat → α) (n : Nat) (g : Nat → Nat → Option α)
+theorem noiseLoop_inside [Zero α] (d a : Nat) (q : Nat → Nat → Option α) (n : Nat) (g : Nat → Nat → Option α)
     (r c i : Nat) (hi : i < n) (hc1 : i * (d + a) + d ≤ c) (hc2 : c < i * (d + a) + d + a) :
     noiseLoop d (d + a) a q n g r c =
       if r < d then some 0
-      else if r < d + a then some (q (r - d) (c - (i * (d + a) + d)))
+      else if r < d + a then q (r - d) (c - (i * (d + a) + d))
       else g r c := by
   induction n with
   | zero => omega
@@ -237,7 +237,7 @@ theorem noiseLoop_inside [Zero α] (d a : Nat) (q : Nat → Nat → α) (n : Nat
       exact ih hlt
 
 /-- Columns `0 .. d` of any component are not written by the second loop. -/
-theorem noiseLoop_left [Zero α] (d a : Nat) (q : Nat → Nat → α) (n : Nat) (g : Nat → Nat → Option α)
+theorem noiseLoop_left [Zero α] (d a : Nat) (q : Nat → Nat → Option α) (n : Nat) (g : Nat → Nat → Option α)
     (r i j : Nat) (hj : j < d) :
     noiseLoop d (d + a) a q n g r (i * (d + a) + j) = g r (i * (d + a) + j) := by
   apply noiseLoop_outside
@@ -255,7 +255,7 @@ theorem noiseLoop_left [Zero α] (d a : Nat) (q : Nat → Nat → α) (n : Nat) 
 
 /-- The covariance storage after augmentation, cell by cell, for a well-formed container:
     component `i` occupies columns `i (d + a) .. (i + 1)(d + a)` and is `blockdiag(P_i, Q)`. -/
-theorem augmented_cov [Zero α] (x : Container α) (h : WF x) (a : Nat) (q : Nat → Nat → α) (mean2 : Sto α)
+theorem augmented_cov [Zero α] (x : Container α) (h : WF x) (a : Nat) (q : Nat → Nat → Option α) (mean2 : Sto α)
     (i : Nat) (hi : i < x.components) :
     (∀ r c, r < x.dimCovariance → c < x.dimCovariance →
       (augmented x a q mean2).cov.get r (i * (x.dimCovariance + a) + c) = x.cov.get r (i * x.dimCovariance + c)) ∧
@@ -265,7 +265,7 @@ theorem augmented_cov [Zero α] (x : Container α) (h : WF x) (a : Nat) (q : Nat
       (augmented x a q mean2).cov.get (x.dimCovariance + r) (i * (x.dimCovariance + a) + c) = some 0) ∧
     (∀ r c, r < a → c < a →
       (augmented x a q mean2).cov.get (x.dimCovariance + r) (i * (x.dimCovariance + a) + x.dimCovariance + c)
-        = some (q r c)) := by
+        = q r c) := by
   have hk := h.pos
   have hcr := h.covRows
   have hcc := h.covCols
